@@ -31,6 +31,8 @@ type ttlSummary struct {
 }
 
 type ttlRow struct {
+	want     time.Time // ExpiresAt as read from the primary right after the row was set up
+	wantOK   bool
 	name     string
 	off      uint32
 	deadline time.Time // zero = must never expire during the run
@@ -47,7 +49,7 @@ func cmdTTL(args []string) {
 	rng := NewRng(*seed)
 	s := ttlSummary{Engine: "ttl"}
 	intervals := []time.Duration{time.Millisecond, 5 * time.Millisecond, 20 * time.Millisecond, 50 * time.Millisecond, 120 * time.Millisecond}
-	margin := 60 * time.Millisecond
+	margin := 250 * time.Millisecond // scheduling noise on a loaded machine must never turn into a verdict
 	for run := 0; run < *n; run++ {
 		iv := intervals[(run+int(*seed))%len(intervals)]
 		s.Intervals = append(s.Intervals, iv.String())
@@ -84,6 +86,13 @@ func cmdTTL(args []string) {
 		short2 := ins("short-b", time.Duration(150+rng.Intn(100))*time.Millisecond, true)
 		_ = short1
 		_ = short2
+		// the deadlines as the primary holds them now (the shortest TTL is tens of milliseconds away)
+		for _, r := range rows {
+			r.want, r.wantOK = expiresAt(c, r.off)
+			if r.expires && (!r.wantOK || !r.want.Equal(r.deadline)) {
+				s.Failures = append(s.Failures, fmt.Sprintf("run %d (%v): row %s: SetTTL returned %v but ExpiresAt reads %v(%v)", run, iv, r.name, r.deadline, r.want, r.wantOK))
+			}
+		}
 		// the deadline survives snapshot/restore and replication
 		var snap bytes.Buffer
 		c.Snapshot(&snap)
@@ -102,7 +111,7 @@ func cmdTTL(args []string) {
 			}
 		}
 		for _, r := range rows {
-			want, wok := expiresAt(c, r.off)
+			want, wok := r.want, r.wantOK
 			for nm, other := range map[string]*column.Collection{"restored": restored, "replica": replica} {
 				got, gok := expiresAt(other, r.off)
 				if wok != gok || !want.Equal(got) {
@@ -113,7 +122,7 @@ func cmdTTL(args []string) {
 		restored.Close()
 		replica.Close()
 		// observe, with unrelated updates of the same rows going on
-		end := time.Now().Add(450*time.Millisecond + 4*iv)
+		end := time.Now().Add(900*time.Millisecond + 6*iv)
 		obs := 0
 		for time.Now().Before(end) {
 			now := time.Now()
